@@ -1,6 +1,6 @@
 """C01 Relaxation generators preserve trace and Hermiticity.
 
-E-grid, two sections, both complete constrained Cartesian products (nothing sampled):
+E-grid, three sections, all complete constrained Cartesian products (nothing sampled):
 
 * section "bath": size x site-energy pattern x coupling pattern x bath (type, reorganisation
   energy, correlation time, temperature, same / site-dependent) x tensor configuration.
@@ -14,6 +14,13 @@ E-grid, two sections, both complete constrained Cartesian products (nothing samp
   |i><j| (all d^2 projectors, diagonal ones included); inside one case every assignment of the
   rates {0.01, 0.002} to the set and every form (LindbladForm tensor form, operator form,
   OpenSystem "Lindblad_form" / "electronic_Lindblad", secular or not) is built.
+* section "bare": systems made by hand with the constructors of quantarhei.qm (Hamiltonian from a
+  matrix, SystemBathInteraction from site projectors |i><i| on ALL states and a
+  CorrelationFunctionMatrix) that have NO separate ground state: the first state carries a
+  site energy, a bath and resonance couplings like every other state (the 2x2 [[e,J],[J,e']]
+  systems of the package's unit tests).  number of states x energy pattern x coupling pattern
+  (nearest neighbour / all-to-all) x bath x bath mode x every direct constructor with the
+  product of its options; the same reads, identities and secularisations as section "bath".
 
 What is done with every tensor that can be built (the REAL objects, real basis contexts):
   reads      data outside any context, inside eigenbasis_of(H), nested inside
@@ -104,6 +111,37 @@ def _system(sysd, with_bath=True):
     return ta, agg
 
 
+def _bare_system(sysd):
+    """System class "bare": a hand-made Hamiltonian WITHOUT a separate ground state (every
+    state, the first one included, carries a site energy, is resonance coupled according to
+    the coupling pattern and has its own bath: site projectors |i><i| on ALL states) and a
+    SystemBathInteraction made with the constructors of quantarhei.qm, the way the package's
+    own unit tests do it.  Returns fresh (time axis, Hamiltonian, sbi)."""
+    isolation.reset_manager()
+    qr = isolation.qr()
+    from quantarhei.qm import Operator, SystemBathInteraction
+    from quantarhei.qm.corfunctions import CorrelationFunctionMatrix
+    ta = systems.time_axis(NT, DT)
+    n = sysd["n"]
+    h = numpy.array(_J(n, sysd["J"]), dtype=float)
+    for i, e in enumerate(_energies(n, sysd["en"])):
+        h[i, i] = e
+    with qr.energy_units("1/cm"):
+        ham = qr.Hamiltonian(data=h)
+    bath = _bath(sysd)
+    cfm = CorrelationFunctionMatrix(ta, n, n)
+    ops = []
+    cf = None
+    for i in range(n):
+        if cf is None or isinstance(bath, list):
+            cf = systems.corfce(ta, bath[i] if isinstance(bath, list) else bath)
+        cfm.set_correlation_function(cf, [(i, i)], i + 1)
+        k = numpy.zeros((n, n))
+        k[i, i] = 1.0
+        ops.append(Operator(data=k))
+    return ta, ham, SystemBathInteraction(ops, cfm)
+
+
 def _other(dim, kind):
     """Operators unrelated to the Hamiltonian whose eigenbases are used for reading."""
     from quantarhei.qm import SelfAdjointOperator
@@ -165,8 +203,14 @@ def _build(sysd, cfg):
     qr = isolation.qr()
     import quantarhei.qm as qm
     lind = "proj" in cfg
-    ta, agg = _system(sysd, with_bath=not lind)
-    ham = agg.get_Hamiltonian()
+    bare = bool(sysd.get("bare"))
+    if bare:
+        if lind or cfg["via"] != "direct":
+            raise isolation.HarnessError("bare systems are built with direct constructors only")
+        ta, ham, bare_sbi = _bare_system(sysd)
+    else:
+        ta, agg = _system(sysd, with_bath=not lind)
+        ham = agg.get_Hamiltonian()
     cutoff = 0.5 * NT * DT if cfg.get("cutoff") else None
     ccut = _ccut_internal() if cfg.get("ccut") else None
     if lind:
@@ -178,7 +222,7 @@ def _build(sysd, cfg):
         else:
             T = qm.LindbladForm(ham, sbi, as_operators=bool(cfg.get("ops")))
         return T, ham
-    sbi = agg.get_SystemBathInteraction()
+    sbi = bare_sbi if bare else agg.get_SystemBathInteraction()
     if cfg["via"] == "os":
         T, _h = agg.get_RelaxationTensor(
             ta, relaxation_theory=cfg["theory"], time_dependent=bool(cfg.get("td")),
@@ -507,6 +551,8 @@ def _os_secular_twin(acc, sysd, cfg, T, ham, variant):
 
 def _eval_cfg(acc, sysd, cfg):
     variant = _variant(cfg)
+    if sysd.get("bare"):
+        variant = "bare-" + variant
     acc.label = ""
     if "proj" in cfg:
         acc.label = " {projectors |i><j| %s, rates %s}" % (list(cfg["proj"]), cfg["rates"])
@@ -685,6 +731,18 @@ def cases(tier):
                         cs.append({"kind": "bath", "tier": tier,
                                    "sys": {"n": n, "en": en, "J": J, "bath": bath,
                                            "bathmode": mode}, "cfg": cfg})
+    # section "bare": Hamiltonians without a separate ground state - the FIRST state is
+    # resonance coupled to the others and has its own bath - with every direct constructor
+    # (OpenSystem cannot produce such a system: its state 0 is the uncoupled ground state)
+    dcfgs = [c for c in cfgs if c["via"] == "direct"]
+    for n in ((2, 3) if tier == "quick" else (2, 3, 4)):      # n = number of states here
+        for (en, J) in _hams(n, ens, ("nn", "all")):
+            for bath in _baths(tier):
+                for mode in modes:
+                    for cfg in dcfgs:
+                        cs.append({"kind": "bare", "tier": tier,
+                                   "sys": {"n": n, "en": en, "J": J, "bath": bath,
+                                           "bathmode": mode, "bare": 1}, "cfg": cfg})
     # Lindblad forms: the Hamiltonian only fixes the dimension and the reading bases
     if tier == "quick":
         lens, lJs = ("distinct",), ("all", "nn")
@@ -704,12 +762,15 @@ def cases(tier):
                 cs.append({"kind": "lindblad", "tier": tier, "sys": {"n": n, "en": en, "J": J},
                            "proj": [list(p) for p in s]})
     # simplest first: size, then cheap configurations first inside one size
-    cs.sort(key=lambda c: (c["sys"]["n"], 0 if c["kind"] == "bath" else 1))
+    cs.sort(key=lambda c: (c["sys"]["n"], {"bath": 0, "bare": 1}.get(c["kind"], 2)))
     return cs
 
 
 def run(run):
-    run.rule = ("section bath: full product size x energy pattern x coupling pattern x bath x "
+    run.rule = ("section bare: number of states x energy pattern x coupling pattern x bath x bath "
+                "mode x direct-constructor configuration (22) on hand-made Hamiltonians whose "
+                "first state is coupled and has a bath (no separate ground state); "
+                "section bath: full product size x energy pattern x coupling pattern x bath x "
                 "bath mode x tensor configuration (52 configurations: OpenSystem theories x "
                 "options, direct constructors x options); section lindblad: size x Hamiltonian x "
                 "every set of <=2 projectors |i><j|, inside a case every rate assignment x form; "
@@ -727,7 +788,8 @@ def run(run):
         "option combinations listed in _unbuildable are excluded and counted; any other "
         "library exception is a crash violation"]
     cs = cases(run.tier)
-    run.bounds = {"nsites": "1..3" if run.tier == "quick" else "1..4", "Nt": NT,
+    run.bounds = {"nsites": "1..3" if run.tier == "quick" else "1..4",
+                  "bare_states": "2..3" if run.tier == "quick" else "2..4", "Nt": NT,
                   "baths": len(_baths(run.tier)),
                   "bath_modes": 1 if run.tier == "quick" else 2,
                   "tensor_configurations": len(_tensor_cfgs()),
